@@ -434,4 +434,88 @@ theorem unsubscribe_regenerated_from_source (t : Trie) (fs : List (List Char)) (
     unsubscribeIR t fs c = (unsubscribeTM c fs t, !fs.all (fun f => (split f).isSome)) := by
   simp [unsubscribeIR, unsubscribe_regenerated_from_source_loop]
 
+/-! ### cursor validity is an INVARIANT of the translated loops (audit P2 item 17)
+
+The path-cursor operations are total (`ptrUpd` leaves the trie alone and `nodeAt` reads `Trie.empty` when the path
+leaves the trie). These theorems show those branches are never taken by `insertIR` / `removeIR`: every pointer
+that is read or written through is a valid path of the current trie. (What stays an assumption is the reading of
+Go pointers as paths at all, i.e. that the Go heap below `mgr.root` is a tree; see notes/C14.md.) -/
+
+theorem ptrSub_prefix (b : List Level) : ∀ (a : List Level) (t : Trie),
+    (ptrSub (a ++ b) t).isSome = true → (ptrSub a t).isSome = true := by
+  intro a t h
+  rw [ptrSub_append] at h
+  cases hs : ptrSub a t with
+  | none => rw [hs] at h; simp at h
+  | some _ => rfl
+
+/-- `insert`: from a valid cursor, the loop never returns early and the cursor after the loop is a valid path of
+the trie after the loop (so the final `node.clients[clientID] = qos` writes through a valid pointer; the only
+`linkPtr` in the generated loop links a pointer it has just made `fresh`) -/
+theorem insert_cursor_valid (t0 : Trie) (topic : List Char) (q : QoS) (c : Client) (lv : List Level) (err : Bool) :
+    ∀ (ls : List Level) (root : Trie) (p : List Level) (fr : Bool) (nn : Ptr) (ok : Bool) (n : Trie),
+    ptrSub p root = some n →
+    match insertIR_loop1 t0 topic q c root lv err ⟨p, fr⟩ nn ok ls with
+    | .inl _ => False
+    | .inr (root', node', _, _) => (ptrSub node'.path root').isSome = true := by
+  intro ls
+  induction ls with
+  | nil => intro root p fr nn ok n h; simp [insertIR_loop1, h]
+  | cons l ls ih =>
+    intro root p fr nn ok n h
+    simp only [insertIR_loop1, childPtr, h]
+    cases hg : alGet l n.children with
+    | some ch =>
+      simp only [Option.isSome_some, Bool.not_true, Bool.false_eq_true, if_false]
+      have hsub : ptrSub (p ++ [l]) root = some ch := by rw [ptrSub_snoc l p root n h, hg]
+      exact ih root (p ++ [l]) false ⟨p ++ [l], false⟩ true ch hsub
+    | none =>
+      simp only [Option.isSome_none, Bool.not_false, if_true, linkPtr, if_true]
+      have hk := ptrSub_ptrUpd (fun n' => Trie.node n'.clients (alSet l Trie.empty n'.children)) p root n h
+      have hsub : ptrSub (p ++ [l])
+          (ptrUpd p (fun n' => Trie.node n'.clients (alSet l Trie.empty n'.children)) root) = some Trie.empty := by
+        rw [ptrSub_snoc l p _ _ hk]
+        simp [Trie.children, alGet_alSet_self]
+      exact ih _ (p ++ [l]) false ⟨p ++ [l], false⟩ false Trie.empty hsub
+
+/-- all paths the pruning loop reads (`nodeAt`) and writes through (`unlinkPtr`) are valid -/
+def prValid (full : List Level) (lo : Nat) : Nat → Trie → Prop
+  | 0, _ => True
+  | d + 1, root =>
+    (ptrSub (full.take (lo + d + 1)) root).isSome = true ∧ (ptrSub (full.take (lo + d)) root).isSome = true ∧
+    (emptyAt root (full.take (lo + d + 1)) = true →
+      prValid full lo d (unlinkPtr root ⟨full.take (lo + d), false⟩ (full.getD (lo + d) [])))
+
+theorem pr_valid (full : List Level) (lo : Nat) : ∀ (d : Nat) (root : Trie), lo + d ≤ full.length →
+    (ptrSub (full.take (lo + d)) root).isSome = true → prValid full lo d root := by
+  intro d
+  induction d with
+  | zero => intro root _ _; trivial
+  | succ d ih =>
+    intro root hlen hv
+    have hlt : lo + d < full.length := by omega
+    have htk : full.take (lo + d + 1) = full.take (lo + d) ++ [full.getD (lo + d) []] := take_succ_getD full (lo + d) hlt
+    have hv' : (ptrSub (full.take (lo + d + 1)) root).isSome = true := by
+      have : lo + (d + 1) = lo + d + 1 := by omega
+      rw [this] at hv; exact hv
+    have hpre : (ptrSub (full.take (lo + d)) root).isSome = true := by
+      rw [htk] at hv'; exact ptrSub_prefix _ _ _ hv'
+    refine ⟨hv', hpre, ?_⟩
+    intro _
+    apply ih _ (by omega)
+    obtain ⟨nd, hnd⟩ := Option.isSome_iff_exists.mp hpre
+    simp only [unlinkPtr]
+    rw [ptrSub_ptrUpd _ _ _ _ hnd]
+    rfl
+
+/-- `remove`: after the walk down succeeded (`ptrSub ls t` is some node) every pointer the deletion and the
+pruning loop use is valid: the full path for `delete(node.clients, c)`, and `prValid` for the loop -/
+theorem remove_cursors_valid (ls : List Level) (t : Trie) (c : Client) (h : (ptrSub ls t).isSome = true) :
+    prValid ls 0 ls.length (delClientPtr t ⟨ls, false⟩ c) := by
+  apply pr_valid ls 0 ls.length _ (by omega)
+  obtain ⟨nd, hnd⟩ := Option.isSome_iff_exists.mp h
+  simp only [Nat.zero_add, List.take_length, delClientPtr]
+  rw [ptrSub_ptrUpd _ _ _ _ hnd]
+  rfl
+
 end EgVerif.Topic
